@@ -8,16 +8,16 @@ LEVEL_TEXT = ("Coq theorems (abstract ordered field with conjugation, every leng
               "matrices have the stated shape (rows n=p..N-1, fliplr(conj) block), whatever solves the normal equations has a residual "
               "orthogonal to every regressor, E(a')-E(a)=|Xc(a'-a)|^2 for every a' (so a minimises the forward resp. forward+backward "
               "energy), the returned e IS that minimum, the imaginary-part assertion cannot fire in exact arithmetic, sums of "
-              "exponentials are annihilated by their root polynomial (forward; backward on the unit circle) so e=0 and, under full "
-              "column rank, the returned polynomial is exactly the root polynomial. lstsq is a universally quantified solver meeting "
+              "exponentials are annihilated by their root polynomial (forward; backward on the unit circle) so e=0; the data matrix of p distinct "
+              "exponentials (non-zero amplitudes, N>=2p) has full column rank (Vandermonde), so the returned polynomial is exactly the root "
+              "polynomial and its roots are exactly the p exponentials. lstsq is a universally quantified solver meeting "
               "'normal equations hold'; an executable certified instance (Gaussian elimination + exact re-check) runs in the "
               "correspondence. Tie: exact in-Coq correspondence of arcovar/modcovar/pcovar.rho/pmodcovar.rho/corrmtx on dyadic inputs, "
               "search on the implementation with oracles built from scratch (own data matrix, QR), Marple recursions compared as a test.")
 TRUSTED = ["Coq 8.16.1 kernel + vm_compute", "hand-written model coq/Model/Ls.v, coq/Model/Corr.v (tie = correspondence run)",
            "scipy.linalg.lstsq is specified (returns a solution of the normal equations), not verified; numpy QR/SVD in the search oracles",
            "Python harness"]
-UNPROVED = ["full column rank of the data matrix of p distinct exponentials (Vandermonde): hypothesis of the uniqueness/exact-recovery clauses; recovery of the frequencies checked by search",
-            "arcovar_marple / modcovar_marple equal the least-squares solution and e/(N-p), e/(2(N-p)): TEST only — their executable model (Model/CovarMarple.v, tied to the code by correspondence) is compared with the exact LS model at zero tolerance on every generated case, and the implementation is compared in the search (tolerance 1e-11*cond^2)",
+UNPROVED = ["arcovar_marple / modcovar_marple equal the least-squares solution and e/(N-p), e/(2(N-p)): TEST only — their executable model (Model/CovarMarple.v, tied to the code by correspondence) is compared with the exact LS model at zero tolerance on every generated case, and the implementation is compared in the search (tolerance 1e-11*cond^2)",
             "completeness of the executable solver ls_solve (returns Some for non-singular normal equations): correspondence only"]
 ASSUMPTIONS = ["exact arithmetic", "N - p >= p and full column rank where uniqueness / exact recovery is claimed",
                "lstsq returns a solution of the normal equations (always true of a least-squares solver, also when rank-deficient)"]
